@@ -55,6 +55,11 @@ class StepShape:
             if ch is not None and self.has_batch() and self.is_batch(ch[-1]):
                 self.loop_next = c
                 self.chain = ch[:-1]
+        if self.in_place and self.loop_next is None:
+            # a full drain that does not feed the processing loop (e.g. collected into a vector) is not the in-place form
+            self.take = None
+            self.in_place = False
+            self.queue_field = None
         self.head = None
         self.body = set()
         if self.loop_next is not None:
